@@ -107,6 +107,15 @@ func runSeekRead(r *core.Run) {
 	for _, f := range unit {
 		seeks = append(seeks, callsNamed(f, "Seek")...)
 		reads = append(reads, callsNamed(f, "Read")...)
+		// io.ReadFull / io.ReadAtLeast stand for the Read calls they make on the reader they are given (possibly through
+		// an adapter type): the Seek has to precede them just the same
+		for _, n := range []string{"ReadFull", "ReadAtLeast"} {
+			for _, c := range callsNamed(f, n) {
+				if g := c.Call.StaticCallee(); g != nil && g.Pkg != nil && g.Pkg.Pkg.Path() == "io" {
+					reads = append(reads, c)
+				}
+			}
+		}
 		locks = append(locks, callsNamed(f, "Lock")...)
 		unlocks = append(unlocks, callsNamed(f, "Unlock")...)
 	}
